@@ -9,13 +9,13 @@ CONSTS = {"MaxTR": 1, "Fault": "none", "EmitCases": False}
 NSW = {"N": ["N", "North", "N.", "n"], "S": ["S", "South", "S.", "s"]}
 EWW = {"E": ["E", "East", "E.", "e"], "W": ["W", "West", "W.", "w"]}
 TEMPL = {
-    "T-R": ["T{t}{ns}-R{r}{ew}", "T{t}{ns} - R{r}{ew}"],
+    "T-R": ["T{t}{ns}-R{r}{ew}", "T{t}{ns} - R{r}{ew}", "T-{t}-{ns}-R-{r}-{ew}"],
     "T R": ["T{t}{ns} R{r}{ew}", "T{t}{ns}, R{r}{ew}"],
     "Township,Range": ["Township {t} {NS}, Range {r} {EW}", "Township {t}{ns}, Range {r}{ew}", "Township {t} {NS} Range {r} {EW}"],
     "Twp.,Rge.": ["Twp. {t} {ns}, Rge. {r} {ew}", "Twp {t}{ns}, Rge {r}{ew}"],
     "T.,R.": ["T. {t} {ns}., R. {r} {ew}.", "T. {t}{ns}, R. {r}{ew}"],
     "bare": ["{t}{ns}-{r}{ew}", "{t}{ns} {r}{ew}"],
-    "lower": ["t{t}{nsl}-r{r}{ewl}", "t{t}{nsl} r{r}{ewl}"],
+    "lower": ["t{t}{nsl}-r{r}{ewl}", "t{t}{nsl} r{r}{ewl}", "t{t}{nsl}r{r}{ewl}"],
 }
 LOOKALIKE = {"1": ["I", "l"], "0": ["O"], "5": ["S"]}
 
@@ -36,6 +36,8 @@ def render_form(f, rng, ocr):
     r = ocr_num(f["r"], rng) if ocr else str(f["r"])
     if f["tmpl"] == "T.,R." and (not ns or not ew):
         tpl = "T. {t}{ns}, R. {r}{ew}"
+    if tpl == "t{t}{nsl}r{r}{ewl}" and (not ns or not ew):
+        tpl = "t{t}{nsl}-r{r}{ewl}"       # the unseparated form is documented with both directions only
     short_ns, short_ew = ns, ew
     long_ns = rng.choice(NSW[ns][:3]) if ns else ""
     long_ew = rng.choice(EWW[ew][:3]) if ew else ""
